@@ -58,10 +58,15 @@ impl<C: CellType> BcInterpreter<C> {
                 if let Instr::BrZ(_, _) | Instr::BrNZ(_, _) = inst {
                     emit_limit(&mut insts, 1);
                 }
-                if let Instr::Scan(_, shift) = inst {
-                    if shift == 0 {
-                        emit_limit(&mut insts, usize::MAX);
-                    }
+                if let Instr::Scan(cond, 0) = inst {
+                    // A stationary scan either falls through immediately or never
+                    // ends. Charge one unit per iteration instead of running it.
+                    emit_limit(&mut insts, 1);
+                    inst_offset.push(insts.len());
+                    emit(&mut insts, Instr::BrNZ(cond, 0), safe);
+                    let branch_at = insts.len() - 3;
+                    adjust_branch(&mut insts[branch_at..], -2);
+                    continue;
                 }
             }
             inst_offset.push(insts.len());
